@@ -842,12 +842,20 @@ SKIP_RECORD_PARSE:
                         return MATRIXSSL_SUCCESS;
                     }
                     psAssert(*c == SSL_RECORD_TYPE_HANDSHAKE); /* Finished */
-                    c += 11;                                   /* Skip type, version, epoch to get to length */
-                    /* borrow rc since we will be leaving here anyway */
-                    rc = *c << 8; c++;
-                    rc += *c; c++;
-                    c += rc; /* Skip FINISHED message we've already accepted */
-                    *buf = c;
+                    /* Skip the FINISHED record we've already accepted, but
+                       only if all of it is here: the length is the peer's
+                       and nothing has authenticated it.  Anything else is
+                       left for the record parser. */
+                    if (end - c >= DTLS_HEADER_LEN)
+                    {
+                        /* borrow rc since we will be leaving here anyway */
+                        rc = (c[11] << 8) + c[12];
+                        if (end - c - DTLS_HEADER_LEN >= rc)
+                        {
+                            c += DTLS_HEADER_LEN + rc;
+                            *buf = c;
+                        }
+                    }
                 }
                 return DTLS_RETRANSMIT;
             }
